@@ -218,6 +218,9 @@ def scenario_table(ctx):
     r1 = hi.call_method("visit_Call", n1)
     r2 = hi.call_method("visit_Call", n2)
     out["two-sites"] = ((n1, r1), (n2, r2))
+    rw, hi, self_obj = _setup(ctx, True, {})
+    n1, n2 = _call_node("REC"), _call_node("REC")
+    out["two-sites-method"] = ((n1, hi.call_method("visit_Call", n1)), (n2, hi.call_method("visit_Call", n2)))
     # shapes that must be left to the generic path
     for name, kw in (("other-callee", dict()), ("starred", dict(star=True)), ("double-star", dict(dstar=True))):
         callee = "foo" if name == "other-callee" else "REC"
@@ -305,6 +308,36 @@ def law_each_argument_once(ctx):
         "two rewritten call sites (even at the same source position / nesting depth) use disjoint temporaries",
         bool(disjoint),
         f"two call sites share the temporaries {sorted(set(s1.temps) & set(s2.temps)) if s1 and s2 else '?'}: a recurse/call_next call nested in an argument of another one overwrites the outer call's temporaries after its types were taken, and the selected method runs on the inner call's arguments",
+    )
+
+
+def law_method_sites(ctx):
+    """C17: in a method, each argument of a rewritten recurse / call_next call is evaluated once into its own
+    temporary and passed from it after the instance; two sites never share temporaries (a nested call would run the
+    selected method, bound to self, on the inner call's arguments)."""
+    m, loc = rw_loc(ctx)
+    ctx.touch(m)
+    t, sites = _sites(ctx)
+    for (name, is_method), (node, res, s) in sites.items():
+        if not is_method:
+            continue
+        ok = s is not None and s.ok_shape and s.self_first
+        ctx.ob(
+            f"{m.key}:rewrite-in-method:{name}",
+            loc,
+            f"in a method, `{dict(SCEN)[name]}` becomes a table lookup called with self and then every argument from its own temporary, each evaluated once in the order written (abstractly executed)",
+            ok,
+            (s.why if s is not None and not s.ok_shape else "the instance is not passed first" if s is not None else "the call is not rewritten into a table lookup") + ": the next method, bound to the instance, runs on other values than the ones written at the call",
+        )
+    (n1, r1), (n2, r2) = t["two-sites-method"]
+    s1, s2 = (Site(r1, n1) if isinstance(r1, ast.Call) else None), (Site(r2, n2) if isinstance(r2, ast.Call) else None)
+    disjoint = s1 is not None and s2 is not None and s1.temps and not (set(s1.temps) & set(s2.temps))
+    ctx.ob(
+        f"{m.key}:temp:fresh-prefix:method",
+        loc,
+        "two rewritten call sites of a method (even at the same source position) use disjoint temporaries",
+        bool(disjoint),
+        f"two call sites share the temporaries {sorted(set(s1.temps) & set(s2.temps)) if s1 and s2 else '?'}: a recurse/call_next call nested in an argument of another one overwrites the outer call's temporaries, and the method selected for the outer call runs on the bound instance with the inner call's values",
     )
 
 
